@@ -88,7 +88,8 @@ class Check(PropertyCheck):
                     "mitmproxy.contentviews._utils:yaml_loads", "mitmproxy.dns:DNSMessage.to_json", "mitmproxy.dns:DNSMessage.from_json",
                     "mitmproxy.dns:ResourceRecord._data_json", "mitmproxy.dns:ResourceRecord.from_json",
                     "mitmproxy.dns:Question.to_json", "mitmproxy.dns:Question.from_json",
-                    "mitmproxy.utils.strutils:escape_control_characters"]
+                    "mitmproxy.utils.strutils:escape_control_characters",
+                    "mitmproxy.contrib.wbxml.ASWBXMLByteQueue:ASWBXMLByteQueue.dequeueAndLog"]
     trusted_base = ["ruamel.yaml dump/load, ipaddress, the idna and utf-8 codecs, https_records pack/unpack as codec parameters with partial-inverse laws",
                     "mitmproxy.dns pack/unpack as the decoder of the re-encoded message (inputs it does not reproduce are skipped)",
                     "content view bodies (Python and Rust) are arbitrary functions"]
@@ -309,8 +310,28 @@ class Check(PropertyCheck):
             return None
         return r.data
 
+    TIMEOUT = 20      # seconds; "returns text" also means: returns
+    case_timeout = 45
+
+    def on_timeout(self, case):
+        # the inner guard in impl() normally fires first; this is the runner-level fallback
+        return [f"content view did not return within {self.case_timeout} s ({case.get('view')!r}, {case.get('msg')})"]
+
     def impl(self, case):
-        obs = self._impl(case)
+        import signal
+
+        def on_alarm(*a):
+            raise BaseException("view did not return within %d s" % self.TIMEOUT)
+        old = signal.signal(signal.SIGALRM, on_alarm)
+        signal.setitimer(signal.ITIMER_REAL, self.TIMEOUT)
+        try:
+            obs = self._impl(case)
+        except BaseException as e:
+            if "did not return within" not in str(e): raise
+            obs = {"exc": "Timeout: " + str(e), "stage": "timeout", "orig": None, "hang": 1}
+        finally:
+            signal.setitimer(signal.ITIMER_REAL, 0)
+            signal.signal(signal.SIGALRM, old)
         Check._last = (json.dumps(case, sort_keys=True), obs)
         return obs
 
@@ -449,12 +470,13 @@ class Check(PropertyCheck):
             return [f"view {obs['view_name']!r} ({case['view']!r}, {case['msg']}) text contains control characters {[hex(b) for b in bad[:5]]}"] if bad else []
         # "Re-encoding an unedited DNS-view rendering of a DNS message yields a message with the same header fields,
         #  questions and records as the original."
+        if obs.get("hang"): return [f"DNS view did not return: {obs['exc']}"]
         fails = [d for _, d in self.dns_diffs(case, obs)]
         if obs.get("bad"): fails.append(f"DNS view text contains control characters {[hex(b) for b in obs['bad'][:5]]}")
         return fails
 
     def known(self, case, obs, failure):
-        if case["kind"] != "dns": return None
+        if case["kind"] != "dns" or obs.get("hang"): return None
         for fid, d in self.dns_diffs(case, obs):
             if d == failure: return fid
         return None
@@ -487,6 +509,7 @@ class Check(PropertyCheck):
             if p["missing"]: return ["pm 1 0 0 - - -"]
             return [f"pm 0 {p['auto']} {p['raised']} {p['vt']} {p['rawt']} {p['name']}"]
         if kind == "dns":
+            if obs.get("hang"): return None
             ls = []
             for r in obs.get("recs", []):
                 ls.append(f"dj {r['t']} {r['data']} {r['dec']} {r['tn']}")
@@ -526,6 +549,7 @@ class Check(PropertyCheck):
                 out.append("pm:missing" if p["missing"] else f"pm:auto{p['auto']}-raised{p['raised']}")
             if obs.get("view_name"): out.append("rendered-by:" + str(obs["view_name"]))
             return out
+        if obs.get("hang"): return ["dns", "hang"]
         out = ["dns", "dns-mode:" + case["mode"], "dns-stage:" + obs["stage"]]
         for fid, _ in self.dns_diffs(case, obs):
             out.append("dns-diff:" + (fid or "UNKNOWN"))
